@@ -1,4 +1,5 @@
 import EaselModel.Stats.HistRat
+import EaselModel.Stats.HistQuery
 import EaselModel.Stats.FitReal
 /-! # C11 — property theorems (statements + glue only; lemmas live in `EaselModel/Stats/*`)
 
@@ -56,6 +57,38 @@ theorem bookkeeping_true (h : Hist ℚ) (vs : List ℚ) (acc : Accounts h vs) (h
     (∀ i : Int, (i < h.imin ∨ h.imax < i) → obsAt h.obs i = 0) ∧ 0 < obsAt h.obs h.imin ∧ 0 < obsAt h.obs h.imax ∧
     h.xmin ∈ vs ∧ h.xmax ∈ vs ∧ (∀ v ∈ vs, h.xmin ≤ v ∧ v ≤ h.xmax) ∧ h.n = vs.length :=
   ⟨fun i hi => hi.elim (acc.below i) (acc.above i), (acc.occ hne).1, (acc.occ hne).2, (acc.xmem hne).1, (acc.xmem hne).2, acc.xlo, acc.n⟩
+
+/-! ### rank and tail queries vs the sorted raw data
+`SortedFlagOK h` ("the `is_sorted` flag tells the truth") holds after `Create` and after every `Add` (the flag is cleared),
+and is re-established by every query (they sort first). -/
+
+theorem sorted_flag_sound (h : Hist ℚ) :
+    (h.isSorted = false → SortedFlagOK h) ∧ (h.isFull = true → SortedFlagOK h → SortedFlagOK h.sort) := by
+  constructor
+  · intro hf hc; rw [hf] at hc; cases hc
+  · intro hf hs _; exact (sort_spec h hf hs).1
+
+/-- `esl_histogram_GetTail(phi)`: `*ret_z` is the number of raw values `≤ phi`, the returned vector is the sorted raw data `> phi`
+    (strictly), `*ret_n = n - *ret_z`; no fault (the binary search stays inside `x[0..n-1]` and terminates), histogram finished. -/
+theorem tail_query_agrees (h : Hist ℚ) (vs : List ℚ) (acc : Accounts h vs) (hf : h.isFull = true) (hs : SortedFlagOK h) (phi : ℚ) :
+    ∃ h' mid, h.getTail phi = .val (.ok, h', mid) ∧ mid = vs.countP (fun x => decide (x ≤ phi)) ∧
+      h'.x.toList.Pairwise (· ≤ ·) ∧ h'.x.toList.Perm vs ∧
+      (∀ x ∈ h'.x.toList.take mid, x ≤ phi) ∧ (∀ x ∈ h'.x.toList.drop mid, phi < x) ∧ h'.isDone = true ∧ h'.obs = h.obs :=
+  getTail_spec h vs acc hf hs phi
+
+/-- `esl_histogram_GetRank(rank)`: eslEINVAL outside `1..n`, otherwise element `n - rank` of the sorted raw data. -/
+theorem rank_query_agrees (h : Hist ℚ) (vs : List ℚ) (acc : Accounts h vs) (hf : h.isFull = true) (hs : SortedFlagOK h) (r : Int) :
+    (¬ (1 ≤ r ∧ r ≤ vs.length) → ∃ v, h.getRank r = .val (.einval, h, v)) ∧
+    (1 ≤ r ∧ r ≤ vs.length → ∃ h' v, h.getRank r = .val (.ok, h', v) ∧ h'.x.toList.Pairwise (· ≤ ·) ∧ h'.x.toList.Perm vs ∧
+        ∃ hi : (vs.length - r.toNat) < h'.x.toList.length, v = h'.x.toList[vs.length - r.toNat] ∧ h'.obs = h.obs) :=
+  getRank_spec h vs acc hf hs r
+
+/-- `esl_histogram_GetTailByMass(pmass)`: the last `⌊n·pmass⌋` sorted raw values (`0 ≤ pmass ≤ 1`), eslEINVAL otherwise. -/
+theorem tailmass_query_agrees (h : Hist ℚ) (vs : List ℚ) (acc : Accounts h vs) (hf : h.isFull = true) (hs : SortedFlagOK h) (p : ℚ) :
+    (¬ (0 ≤ p ∧ p ≤ 1) → (h.getTailByMass p).1 = .einval) ∧
+    (0 ≤ p ∧ p ≤ 1 → ∃ h' k, h.getTailByMass p = (.ok, h', k) ∧ h'.x.toList.Pairwise (· ≤ ·) ∧ h'.x.toList.Perm vs ∧
+        (k : ℚ) ≤ vs.length * p ∧ (vs.length : ℚ) * p < k + 1 ∧ k ≤ vs.length ∧ h'.isDone = true) :=
+  getTailByMass_spec h vs acc hf hs p
 
 /-- non-vacuity: `Create(0, 10, 1)` succeeds over ℚ (so `histogram_accounts` has instances) -/
 example : ∃ h : Hist ℚ, Hist.create (0 : ℚ) 10 1 = .val (some h) := by
